@@ -47,6 +47,7 @@ func (s *subscriptionsState) mergeSubscriptions(subscriptions []*api.Subscriptio
 func (s *subscriptionsState) dump(event *api.StateBroadcastEvent) {
 	subscriptions := s.All()
 	for _, subscription := range subscriptions {
+		subscription := subscription // do not alias the loop variable
 		event.Subscriptions = append(event.Subscriptions, &subscription)
 	}
 }
